@@ -339,7 +339,12 @@ def check_dim(S, rep, dim):
         elif op.kind == "SliceAssign" and isinstance(op.src, Arr):
             t = get_state(op.src)
             if t is not None and op.dst.is_full():
+                if op.aug is not None:
+                    problems.append("the result is combined with the previous content of %s by %s= (the solve must overwrite its output)" % (
+                        op.dst.alloc.label, {"Add": "+", "Sub": "-", "Mult": "*", "Div": "/"}.get(op.aug, op.aug)))
                 state[op.dst.alloc.id] = t
+        elif op.kind == "SliceAssign" and op.dst.alloc.id == sol.alloc.id and op.aug is not None:
+            problems.append("the output is updated in place by %s=" % op.aug)
     fin = state.get(sol.alloc.id)
     ok = fin is not None and not problems and fin["order"] == tuple(AX[dim])
     detail = "; ".join(problems) if problems else ""
